@@ -148,8 +148,8 @@ def gen_behaviours(wd, seed, tier, ev):
     behs = []
     rng = random.Random(seed)
     q = tier == "quick"
-    ncex = 40 if q else 400
-    nsim = 100 if q else 1500
+    ncex = 30 if q else 400
+    nsim = 80 if q else 1500
     cov = {}
     fams = [("WideColumnCache", derive_cfg(wd, "WideColumnCache_Cex.cfg", **({"MaxOps": 2} if q else {})),
              "WideColumnCache_Gen.cfg", False),
@@ -159,7 +159,7 @@ def gen_behaviours(wd, seed, tier, ev):
              "KeyOfSetCache_GenL.cfg", True)]
     for mod, cexcfg, gencfg, scaled in fams:
         if scaled:
-            ncex_f, nsim_f = (20, 30) if q else (150, 300)
+            ncex_f, nsim_f = (8, 12) if q else (150, 300)
         else:
             ncex_f, nsim_f = ncex, nsim
         r = vp.tlc(mod, cfg=cexcfg, workers=4, timeout=1500, extra=["-continue"], check_ok=False, xmx="6g")
@@ -358,9 +358,22 @@ def verdict_of(wd, name, events, verdict, ev, behaviours=None, seed=0):
     failing = [r for r in runs if r[0]["id"] in byrun]
     known = known_by_tag(verdict)
     mstats = ev.setdefault("classification", {})
+    fams = {}
     for fam, is_set in (("wide", False), ("set", True)):
-        fr = [r for r in failing if (r[0].get("map") == "set") == is_set]
-        res = classify_all(wd, f"{name}-{fam}", fr, is_set, mstats)
+        fams[fam] = (is_set, [r for r in failing if (r[0].get("map") == "set") == is_set])
+    # the two families are validated by two TLC processes (1 worker each) side by side
+    import concurrent.futures as cf
+    fstats = {fam: {} for fam in fams}
+    with cf.ThreadPoolExecutor(max_workers=2) as ex:
+        futs = {fam: ex.submit(classify_all, wd, f"{name}-{fam}", fr, is_set, fstats[fam])
+                for fam, (is_set, fr) in fams.items()}
+        results = {fam: f.result() for fam, f in futs.items()}
+    for st in fstats.values():
+        for k, v in st.items():
+            mstats[k] = mstats.get(k, 0) + v
+    for fam, (is_set, fr) in fams.items():
+        res = results[fam]
+        mstats["runs_classified"] = mstats.get("runs_classified", 0) + len(fr)
         for r in fr:
             rid = r[0]["id"]
             tags = res.get(rid)
@@ -434,7 +447,7 @@ def harness(bd, out, **kw):
             cmd += [f"--{k}"]
         else:
             cmd += [f"--{k}", str(v)]
-    p = vp.run(cmd, timeout=3000)
+    p = vp.run_subject(cmd, timeout=3000)
     m = re.search(r"panics=(\d+)", p.stdout or "")
     return int(m.group(1)) if m else 0
 
